@@ -5,7 +5,7 @@ import (
 	"io"
 	"os"
 	"path/filepath"
-	"sync"
+	"sync/atomic"
 	"syscall"
 
 	"github.com/cube2222/octosql/helpers/simhook"
@@ -15,6 +15,10 @@ import (
 // opens to WrapFileFn. Per (path, open ordinal) the current run's plan decides
 // the sizes of the reads served (short reads), an optional read error after k
 // bytes, and whether each read parks on a gate.
+//
+// Race-detector hygiene: the plan is fixed before the run starts and only read
+// afterwards; counters are atomics; no mutex is shared between goroutines of
+// the system under test.
 
 type OpenPlan struct {
 	Chunks []int // read i serves at most Chunks[i % len] bytes; empty = unlimited
@@ -22,95 +26,121 @@ type OpenPlan struct {
 	Gate   bool  // park on "disk.read:<base>:<n>" before every read
 }
 
-type Disk struct {
-	mu    sync.Mutex
-	plans map[string][]OpenPlan // by base name; index = open ordinal (0-based); beyond the list: plain
-	opens map[string]int
-	ctl   *Ctl
-	run   *Run
-	Fired map[string]int
+type diskFile struct {
+	plans []OpenPlan
+	opens atomic.Int32
 }
 
-var (
-	simMu       sync.Mutex
-	currentDisk *Disk
-	currentCtl  *Ctl
-	gatedSites  map[string]bool
-)
+type Disk struct {
+	files      map[string]*diskFile // fixed before the run
+	ctl        *Ctl
+	readErrors atomic.Int64
+	shortReads atomic.Int64
+}
+
+// Fired reports how often each fault kind actually happened.
+func (d *Disk) FiredCount(kind string) int {
+	switch kind {
+	case "read_error":
+		return int(d.readErrors.Load())
+	case "short_read":
+		return int(d.shortReads.Load())
+	}
+	return 0
+}
+
+type simState struct {
+	ctl   *Ctl
+	disk  *Disk
+	sites map[string]bool
+}
+
+var currentSim atomic.Pointer[simState]
 
 func init() {
 	simhook.WrapFileFn = func(path string, f *os.File) io.Reader {
-		simMu.Lock()
-		d := currentDisk
-		simMu.Unlock()
-		if d == nil {
+		raceOff()
+		st := currentSim.Load()
+		raceOn()
+		if st == nil || st.disk == nil {
 			return nil
 		}
-		return d.wrap(path, f)
+		return st.disk.wrap(path, f)
 	}
 	simhook.YieldFn = func(site string, id int64) {
-		simMu.Lock()
-		c := currentCtl
-		on := false
-		if c != nil {
-			// site may carry a ":<path>" tag; gating is decided by the bare site name
-			bare := site
-			for i := 0; i < len(site); i++ {
-				if site[i] == ':' {
-					bare = site[:i]
-					break
-				}
-			}
-			on = gatedSites[bare]
-			if on && len(bare) < len(site) {
-				site = bare + ":" + filepath.Base(site[len(bare)+1:])
+		raceOff()
+		st := currentSim.Load()
+		raceOn()
+		if st == nil || st.ctl == nil {
+			return
+		}
+		// site may carry a ":<path>" tag; gating is decided by the bare site name
+		bare := site
+		for i := 0; i < len(site); i++ {
+			if site[i] == ':' {
+				bare = site[:i]
+				break
 			}
 		}
-		simMu.Unlock()
-		if on {
-			c.Park(fmt.Sprintf("%s:%05d", site, id))
+		if !st.sites[bare] {
+			return
 		}
+		if len(bare) < len(site) {
+			site = bare + ":" + filepath.Base(site[len(bare)+1:])
+		}
+		st.ctl.Park(fmt.Sprintf("%s:%05d", site, id))
 	}
 }
 
 // installSim makes ctl/disk the current run's controller and disk (nil to clear).
 func installSim(ctl *Ctl, disk *Disk, sites ...string) {
-	simMu.Lock()
-	currentCtl = ctl
-	currentDisk = disk
-	gatedSites = map[string]bool{}
-	for _, s := range sites {
-		gatedSites[s] = true
+	if ctl == nil && disk == nil {
+		raceOff()
+		currentSim.Store(nil)
+		raceOn()
+		return
 	}
-	simMu.Unlock()
+	st := &simState{ctl: ctl, disk: disk, sites: map[string]bool{}}
+	for _, s := range sites {
+		st.sites[s] = true
+	}
+	raceOff()
+	currentSim.Store(st)
+	raceOn()
 }
 
 func NewDisk(r *Run, ctl *Ctl) *Disk {
-	return &Disk{plans: map[string][]OpenPlan{}, opens: map[string]int{}, ctl: ctl, run: r, Fired: map[string]int{}}
+	return &Disk{files: map[string]*diskFile{}, ctl: ctl}
 }
 
+// Plan must be called before the run starts.
 func (d *Disk) Plan(base string, ordinal int, p OpenPlan) {
-	for len(d.plans[base]) <= ordinal {
-		d.plans[base] = append(d.plans[base], OpenPlan{ErrAt: -1})
+	f := d.files[base]
+	if f == nil {
+		f = &diskFile{}
+		d.files[base] = f
 	}
-	d.plans[base][ordinal] = p
+	for len(f.plans) <= ordinal {
+		f.plans = append(f.plans, OpenPlan{ErrAt: -1})
+	}
+	f.plans[ordinal] = p
 }
 
 func (d *Disk) wrap(path string, f *os.File) io.Reader {
 	base := filepath.Base(path)
-	d.mu.Lock()
-	n := d.opens[base]
-	d.opens[base]++
-	var p *OpenPlan
-	if n < len(d.plans[base]) {
-		pp := d.plans[base][n]
-		p = &pp
-	}
-	d.mu.Unlock()
-	if p == nil || (len(p.Chunks) == 0 && p.ErrAt < 0 && !p.Gate) {
+	df := d.files[base]
+	if df == nil {
 		return nil
 	}
-	return &simFile{d: d, f: f, base: base, ordinal: n, plan: *p}
+	n := int(df.opens.Add(1)) - 1
+	if n >= len(df.plans) {
+		return nil
+	}
+	p := df.plans[n]
+	if len(p.Chunks) == 0 && p.ErrAt < 0 && !p.Gate {
+		return nil
+	}
+	return &simFile{d: d, f: f, base: base, ordinal: n, plan: p}
 }
 
 type simFile struct {
@@ -130,9 +160,7 @@ func (s *simFile) Read(p []byte) (int, error) {
 		}
 	}
 	if s.plan.ErrAt >= 0 && s.served >= s.plan.ErrAt {
-		s.d.mu.Lock()
-		s.d.Fired["read_error"]++
-		s.d.mu.Unlock()
+		s.d.readErrors.Add(1)
 		return 0, &os.PathError{Op: "read", Path: s.base, Err: syscall.EIO}
 	}
 	limit := len(p)
@@ -150,9 +178,7 @@ func (s *simFile) Read(p []byte) (int, error) {
 	s.reads++
 	n, err := s.f.Read(p[:limit])
 	if restricted && n > 0 {
-		s.d.mu.Lock()
-		s.d.Fired["short_read"]++
-		s.d.mu.Unlock()
+		s.d.shortReads.Add(1)
 	}
 	s.served += int64(n)
 	return n, err
